@@ -406,21 +406,24 @@ int reb_simulation_remove_particle(struct reb_simulation* const r, int index, in
         reb_integrator_ias15_reset(r);
         if (r->ri_mercurius.mode==1){
             struct reb_integrator_mercurius* rim = &(r->ri_mercurius);
-            int after_to_be_removed_particle = 0;
+            // The removed particle might or might not be part of the encounter. In both cases all
+            // indices in the map which are larger than the removed index need to be shifted.
             int encounter_index = -1;
+            unsigned int j = 0;
             for (unsigned int i=0;i<rim->encounter_N;i++){
-                if (after_to_be_removed_particle == 1){
-                    rim->encounter_map[i-1] = rim->encounter_map[i] - 1; 
-                }
                 if (rim->encounter_map[i]==index){
                     encounter_index = i;
-                    after_to_be_removed_particle = 1;
+                    continue;
                 }
+                rim->encounter_map[j] = (rim->encounter_map[i]>index) ? rim->encounter_map[i]-1 : rim->encounter_map[i];
+                j++;
             }
-            if (encounter_index<(int)rim->encounter_N_active){
-                rim->encounter_N_active--;
+            if (encounter_index>=0){
+                if (encounter_index<(int)rim->encounter_N_active){
+                    rim->encounter_N_active--;
+                }
+                rim->encounter_N--;
             }
-            rim->encounter_N--;
         }
     }
 
@@ -433,16 +436,17 @@ int reb_simulation_remove_particle(struct reb_simulation* const r, int index, in
             // still is the flag array of the pre-timestep check with encounter_N==1: decrementing the unsigned
             // encounter_N for every removed particle wrapped it around and the loop below left the array.
             const int map_is_index_list = (r->ri_trace.mode==1);
-            int after_to_be_removed_particle = 0;
+            // The removed particle might or might not be part of the encounter. In both cases all
+            // indices in the map which are larger than the removed index need to be shifted.
             int encounter_index = -1;
+            unsigned int jm = 0;
             for (unsigned int i=0;map_is_index_list && i<ri_trace->encounter_N;i++){
-                if (after_to_be_removed_particle == 1){
-                    ri_trace->encounter_map[i-1] = ri_trace->encounter_map[i] - 1;
-                }
                 if (ri_trace->encounter_map[i]==index){
                     encounter_index = i;
-                    after_to_be_removed_particle = 1;
+                    continue;
                 }
+                ri_trace->encounter_map[jm] = (ri_trace->encounter_map[i]>index) ? ri_trace->encounter_map[i]-1 : ri_trace->encounter_map[i];
+                jm++;
             }
 
             // reshuffle current_Ks
